@@ -472,6 +472,17 @@ def run_case(case):
         x, y = positions(rng, h, n)
         dist = bool(rng.random() < .7)
         if op == "image2sky":
+            if rng.random() < .35:
+                # the positions as a catalogue stores them: float32 columns, integer pixel indices, lists (every such
+                # value is an exact pixel position; the reference works on the same values in float64)
+                st = str(rng.choice(["f4", "f4", "i4", "i8", "u2", "i2", "list"]))
+                if st == "list":
+                    probe.attempt(w.image2sky, x.tolist(), y.tolist(), distort=dist)
+                else:
+                    x, y = (np.maximum(np.round(x), 1) if st[0] in "iu" else x).astype(st), (np.maximum(np.round(y), 1) if st[0] in "iu" else y).astype(st)
+                    if n == 1 and rng.random() < .5:
+                        probe.attempt(w.image2sky, x[0], y[0], distort=dist)        # NumPy scalars of that type
+                COL.info["typed_pixel_inputs"] = COL.info.get("typed_pixel_inputs", 0) + 1
             res, e = probe.attempt(w.image2sky, gen.maybe_view(rng, x), gen.maybe_view(rng, y), distort=dist)
             if e is not None:
                 key = "sip/distort-false-unboundlocal" if kind == "sip" and not dist and isinstance(e, UnboundLocalError) else None
